@@ -401,6 +401,10 @@ class Ctx:
                 return [v.term]
             if getattr(v, 'term', None) is not None and v.term.sort() == IntSort:
                 return [v.term]
+            if isinstance(v, VList):
+                # the identity of a list seen as an opaque value is a function of its contents
+                f = z3.Function('list_id_' + '_'.join(str(q.sort()) for q in v.seqs), *([q.sort() for q in v.seqs] + [IntSort]))
+                return [f(*v.seqs)]
             return [self.fresh('opq', IntSort)]
         if isinstance(v, VEmptyList):
             if isinstance(ty, ListT):
@@ -424,6 +428,8 @@ class Ctx:
         if isinstance(v, VChunks):
             raise OutOfSubset('chunk list stored in a field')
         if isinstance(ty, TupleT):
+            if isinstance(v, VList) and len(getattr(v, 'display_items', ())) == len(ty.ts):
+                v = VTuple(list(v.display_items))
             if not isinstance(v, VTuple) or len(v.items) != len(ty.ts):
                 raise OutOfSubset('tuple shape mismatch on store: %r into %r' % (v, ty))
             out = []
@@ -526,6 +532,8 @@ class Ctx:
                     self.heap_write(r, name, VNone())
                 elif name.endswith('?set'):
                     self.heap_write(r, name, VBool(False))
+                elif isinstance(ty, _v._TDyn):
+                    self.heap_write(r, name, VNone())
             for name, val in sp.init.items():
                 self.heap_write(r, name, const_to_v(val))
             stack.extend(sp.bases)
